@@ -34,6 +34,7 @@ type Obligation struct {
 	Trivial   bool
 	Result    *SolveResult
 	Region    *Term // known-finding region (if the obligation is listed)
+	Observed  *Term // known behaviour inside the region (proved instead of the goal there)
 	Finding   *Finding
 	ModelVals Model
 }
@@ -96,6 +97,7 @@ type Exec struct {
 	lockDiscipline bool
 	funcIds        map[string]int64
 	strContents    map[int]*Content
+	findings       []*Finding
 }
 
 func NewExec(prog *Program, fn *ssa.Function, prop string) *Exec {
